@@ -502,8 +502,11 @@ var justifiedORD = map[string]ordJust{
 				}
 				return true
 			})
-			if walker == nil {
-				return false, "the import loop is not inside a walker closure any more"
+			var walkerBody *ast.BlockStmt
+			if walker != nil {
+				walkerBody = walker.Body
+			} else {
+				walkerBody = c.fd.Body // the walker is a declared function or method that calls itself
 			}
 			why := ""
 			var ranges []*ast.RangeStmt
@@ -526,7 +529,7 @@ var justifiedORD = map[string]ordJust{
 							continue
 						}
 						o := objOf(c.info, root)
-						if o == nil || (o.Pos() >= walker.Pos() && o.Pos() <= walker.End()) {
+						if o == nil || (o.Pos() >= walkerBody.Pos() && o.Pos() <= walkerBody.End()) {
 							continue // a table local to the walker
 						}
 						plain := false
@@ -567,7 +570,7 @@ var justifiedORD = map[string]ordJust{
 				}
 				return true
 			}
-			ast.Inspect(walker.Body, visit)
+			ast.Inspect(walkerBody, visit)
 			if why != "" {
 				return false, why
 			}
@@ -747,7 +750,12 @@ func runORD1(w *World, r *Result, only func(rel string) bool) int {
 					n++
 					cons := "range " + es(rs.X)
 					pos := w.Pos(rs.Pos())
-					if j, ok := justifiedORD[c.fn+"|"+normLocals(c.info, rs.X)]; ok {
+					j, ok := justifiedORD[c.fn+"|"+normLocals(c.info, rs.X)]
+					if !ok && enumUnionWalker(c, rs) {
+						// the import walk of the enum and union tables, wherever it lives (closure, function, method)
+						j, ok = justifiedORD["analysis.fetchEnumsAndUnions|$*packages.Package.Imports"]
+					}
+					if ok {
 						if good, why := j.side(c, rs); good {
 							r.justified("ORD-1", c.fn, cons, pos, j.why+" [side condition re-checked on this run]")
 						} else {
@@ -769,6 +777,34 @@ func runORD1(w *World, r *Result, only func(rel string) bool) int {
 		}
 	}
 	return n
+}
+
+// enumUnionWalker: rs ranges over the Imports of a *packages.Package inside a function that merges the per-package
+// enum and union tables (it calls fetchPkgEnums and fetchPkgUnions) and calls itself on the imports.
+func enumUnionWalker(c *ordCtx, rs *ast.RangeStmt) bool {
+	if normLocals(c.info, rs.X) != "$*packages.Package.Imports" {
+		return false
+	}
+	self, _ := c.info.Defs[c.fd.Name].(*types.Func)
+	enums, unions, recurses := false, false, false
+	ast.Inspect(c.fd.Body, func(n ast.Node) bool {
+		call, ok := n.(*ast.CallExpr)
+		if !ok {
+			return true
+		}
+		fn := calleeOf(c.info, call)
+		switch {
+		case fn == nil:
+		case strings.HasSuffix(fullName(fn), "analysis.fetchPkgEnums"):
+			enums = true
+		case strings.HasSuffix(fullName(fn), "analysis.fetchPkgUnions"):
+			unions = true
+		case fn == self && rs.Body.Pos() <= call.Pos() && call.End() <= rs.Body.End():
+			recurses = true
+		}
+		return true
+	})
+	return enums && unions && recurses
 }
 
 var nondetFuncs = map[string]bool{
